@@ -39,6 +39,8 @@ def plan(tier, seed):
     nch = 16 if tier == "quick" else 256
     for c in range(nch):
         shards.append(("overlap", grid, c, nch))
+    for c in range(4):
+        shards.append(("overlap_tall", c, 4))
     if tier == "quick":
         # a slice of the 2x3 pair space as well (every 64th first frame)
         for c in range(16):
@@ -120,6 +122,12 @@ def _check_frame(sh, key, case, spf, mask, data, cI):
     want = np.where(mask, data, 0).astype(data.dtype)
     if dense.shape != tuple(data.shape) or not np.array_equal(np.asarray(dense), want):
         sh.violation(key + ":to_dense", case, {"dense": np.asarray(dense), "expected": want})
+        return False
+    # history: a caller-supplied output array still holding another frame must give the same image
+    work = np.full(data.shape, 77, spf.pixels["intensity"].dtype)
+    d2 = spf.to_dense("intensity", out=work)
+    if not np.array_equal(np.asarray(d2), want) or not np.array_equal(np.asarray(work), want):
+        sh.violation(key + ":to_dense-with-reused-out-array", case, {"dense": np.asarray(d2), "expected": want})
         return False
     return True
 
@@ -213,7 +221,7 @@ def oracle_overlap(f1, f2):
     return out
 
 
-def check_pair(sh, mods, f1, f2, case):
+def check_pair(sh, mods, f1, f2, case, shape=(4, 4)):
     sf, cI, lin, mat = mods
     want = oracle_overlap(f1, f2)
     n1 = n2 = 3
@@ -238,8 +246,8 @@ def check_pair(sh, mods, f1, f2, case):
         sh.violation("overlaps_matrix:raises", case, {"error": "%s: %s" % (type(e).__name__, e)})
     # overlaps() on frames
     try:
-        fa = sf.sparse_frame(r1, c1, (4, 4), pixels={"labels": l1}); fa.meta["labels"] = {"nlabel": n1}
-        fb = sf.sparse_frame(r2, c2, (4, 4), pixels={"labels": l2}); fb.meta["labels"] = {"nlabel": n2}
+        fa = sf.sparse_frame(r1, c1, shape, pixels={"labels": l1}); fa.meta["labels"] = {"nlabel": n1}
+        fb = sf.sparse_frame(r2, c2, shape, pixels={"labels": l2}); fb.meta["labels"] = {"nlabel": n2}
         m = sf.overlaps(fa, "labels", fb, "labels")
         m = m.tocoo()
         got = {}
@@ -301,14 +309,41 @@ def _run_overlap23(desc):
     return sh
 
 
+TALL = [(0, 5), (32767, 65533), (32768, 0), (32768, 7), (40000, 7), (65533, 65533), (100, 5)]
+
+
+def _run_overlap_tall(desc):
+    """ALL ordered pairs of frames over 7 pixels placed around the 15/16-bit boundaries of the coordinates"""
+    _, c, nch = desc
+    mods = _mods()
+    sh = Shard()
+    pts = sorted(TALL)
+    frames = []
+    for bits in range(1, 1 << len(pts)):
+        sel = [k for k in range(len(pts)) if (bits >> k) & 1]
+        frames.append((np.array([pts[k][0] for k in sel], np.uint16), np.array([pts[k][1] for k in sel], np.uint16),
+                       np.array([1 + (k % 3) for k in sel], np.int32)))
+    for a in range(c, len(frames), nch):
+        for b in range(len(frames)):
+            case = {"kind": "overlap_tall", "frame1": a + 1, "frame2": b + 1}
+            check_pair(sh, mods, frames[a], frames[b], case, shape=(65534, 65534))
+    sh.sample(case, limit=1)
+    return sh
+
+
 def run_shard(desc):
+    if desc[0] == "overlap_tall":
+        return _run_overlap_tall(desc)
     return {"round": _run_round, "sort": _run_sort, "edge": _run_edge, "overlap": _run_overlap,
             "overlap23": _run_overlap23}[desc[0]](desc)
 
 
 def replay(case):
     sh = Shard()
-    if case["kind"] == "overlap":
+    if case["kind"] == "overlap_tall":
+        r = _run_overlap_tall(("overlap_tall", 0, 1))
+        sh.violations = [v for v in r.violations if v["case"]["frame1"] == case["frame1"] and v["case"]["frame2"] == case["frame2"]]
+    elif case["kind"] == "overlap":
         g = tuple(case["grid"])
         check_pair(sh, _mods(), frame_from_code(case["frame1"], g), frame_from_code(case["frame2"], g), case)
     elif case["kind"] == "sort":
